@@ -118,7 +118,7 @@ def check_exec(ctx, name, scn, res, prefix, cost):
 
 def run(ctx):
     bound = 2 if ctx.quick else 3
-    budget = 45 if ctx.quick else 1500
+    budget = float(os.environ.get("GV_SCHED_BUDGET", 45 if ctx.quick else 1500))
     horizon = 600
     ctx.bound("deviation_bound_requested", bound)
     only = os.environ.get("GV_C30_ONLY")
@@ -160,11 +160,11 @@ def run(ctx):
         ctx.bound(f"{name}: bound completed / executions by cost / longest trace", [ex.completed_bound, ex.by_cost, ex.max_len])
         if ex.capped:
             ctx.cap(f"{name}: {ex.capped}")
-        if len(ex.outcomes) < 2 and ex.execs > 50:
-            raise Machinery(f"{name}: vacuous, one observable outcome over {ex.execs} schedules")
         if not ctx.cov["samples"] or len(ctx.cov["samples"]) < 3:
             ctx.sample({"scenario": name, "script": scn["script"], "default_schedule_points": [f"{p['by']}:{p['label']}" for p in base["trace"]][:60]})
     ctx.bound("deviation_bound_completed_all_scenarios", min(completed))
+    if outcomes <= len(names) and total_execs > 50 * len(names):
+        raise Machinery(f"vacuous: only {outcomes} distinct observable response sequences over {total_execs} schedules")
     if min(completed) < 1:
         raise Machinery(f"time budget too small: completed deviation bounds {completed}")
     ctx.add(states=total_execs, transitions=total_points, evaluations=total_execs, nontrivial=outcomes)
